@@ -10,6 +10,7 @@ import TzVerif.Model.Rule
 import TzVerif.Spec.Rule
 import TzVerif.Proofs.Consist
 import TzVerif.Proofs.SrcEqRule
+import TzVerif.Generated.StableC11   -- per run: the current translation (SrcNow) equals the baseline (Src) these theorems are about
 
 namespace TzVerif.C11
 open TzVerif.Model TzVerif.Proofs
